@@ -99,9 +99,9 @@ Upd(gg, k) ==
         ELSE IF g1.inGate = "open.cloned" /\ t.res = "ok" /\ t.ev \in {"ret:PlayerRedeemChips", "ret:PlayerJoin", "ret:CloseTable", "ret:ReleaseTable"}
              THEN [g1 EXCEPT !.openWin = @ \cup {t.ev}, !.ext = @ \/ t.ev \in {"ret:CloseTable", "ret:ReleaseTable"},
                              !.closedBetween = @ \/ (t.ev \in {"ret:CloseTable", "ret:ReleaseTable"} /\ ~g1.handLive)]
-        ELSE IF t.ev = "ret:SetUpTableGame"     \* the competition layer replaced the engine's own set-up by one that cannot open a hand
+        ELSE IF t.ev = "ret:SetUpTableGame" /\ t.res = "ok"    \* the competition layer replaced the engine's own set-up by one that cannot open a hand
              THEN [g1 EXCEPT !.extSetup = @ \/ Cardinality(Range(t.a.ids) \cap AliveInIds(st)) < 2]
-        ELSE IF t.ev = "ret:UpdateBlind" THEN [g1 EXCEPT !.blindSet = t.a.blind, !.blindSetInGate = (g1.inGate # "")]
+        ELSE IF t.ev = "ret:UpdateBlind" /\ t.res = "ok" THEN [g1 EXCEPT !.blindSet = t.a.blind, !.blindSetInGate = (g1.inGate # "")]
         ELSE IF t.ev = "parked" THEN [g1 EXCEPT !.inGate = t.a.kind]
         ELSE IF t.ev = "released" THEN [g1 EXCEPT !.inGate = ""]
         ELSE g1
@@ -167,12 +167,17 @@ C03_bijection(st) ==
         /\ st.players[i].seat \in 0..(st.nseat - 1)
         /\ st.seatmap[st.players[i].seat + 1] = i - 1
   /\ \A i, j \in 1..Len(st.players) : st.players[i].id = st.players[j].id => i = j
-C03_smAgree(st) ==
+\* pendingOK: the line is the return of a call, not a quiescent point: the table's own auto-sit-in goroutine (PlayerJoin sets
+\* the table flag, then tells the seat manager) may be between its two writes
+SmAgreeG(st, pendingOK) ==
   /\ Len(st.sm.seat) = st.nseat /\ st.sm.extra = 0
   /\ \A s \in 0..(st.nseat - 1) :
        IF st.seatmap[s + 1] >= 0 /\ st.seatmap[s + 1] < Len(st.players)
-       THEN SmSeat(st, s).id = st.players[st.seatmap[s + 1] + 1].id /\ SmSeat(st, s).in = st.players[st.seatmap[s + 1] + 1].in
+       THEN /\ SmSeat(st, s).id = st.players[st.seatmap[s + 1] + 1].id
+            /\ \/ SmSeat(st, s).in = st.players[st.seatmap[s + 1] + 1].in
+               \/ (pendingOK /\ st.players[st.seatmap[s + 1] + 1].in /\ ~SmSeat(st, s).in)
        ELSE SmSeat(st, s).id = ""
+C03_smAgree(st) == SmAgreeG(st, FALSE)
 Memb(st) == <<[i \in 1..Len(st.players) |-> <<st.players[i].id, st.players[i].seat, st.players[i].bank, st.players[i].in>>],
               st.seatmap, st.sm.seat>>
 C03_errorUnchanged(t) == t.ev \in MemberEvs /\ t.res # "ok" /\ Len(t.pre) = 1 => Memb(t.pre[1]) = Memb(t.st)
@@ -535,7 +540,7 @@ CheckLine(k, gg) ==
   /\ Clause("C03_noPanic", t.res # "panic" /\ st.status # "projection-panic" /\ t.ev # "crash", kfmid, k)
   /\ ok =>
      /\ Clause("C03_bijection", ((Trusty(t) \/ IsRet(t)) /\ ~midOp) => C03_bijection(st), kfmid, k)
-     /\ Clause("C03_smAgree", ((t.ev \in {"q", "end"} \/ t.ev \in MemberEvs) /\ ~midOp) => C03_smAgree(st),
+     /\ Clause("C03_smAgree", ((t.ev \in {"q", "end"} \/ t.ev \in MemberEvs) /\ ~midOp) => SmAgreeG(st, t.ev \in MemberEvs),
                IF KF_UpdatePartial(t) THEN "KF-C03-update-partial" ELSE kfwin({"ret:PlayerJoin"}, kfmid), k)
      /\ Clause("C03_errorUnchanged", C03_errorUnchanged(t), IF KF_UpdatePartial(t) THEN "KF-C03-update-partial" ELSE "", k)
      /\ Clause("C03_reserveAccepted", C03_reserveAccepted(t), "", k)
